@@ -1,7 +1,7 @@
 SOURCES = ['WebSocket.cpp', 'Socket.cpp', 'String.cpp', 'util.cpp', 'SHA1.cpp']
 HARNESS = 'h_c11.cpp'
 ENV = ['vlibc.c', 'vsock.c']
-NATIVE_EXTRA = ['vsock_native.cpp']
+NATIVE_EXTRA = ['vsock.c']
 BIG = {'maxsteps': 40000000}
 
 
